@@ -149,9 +149,9 @@ func corrC18(outDir string, seed uint64, tier string, replay string) *report {
 	r := newRng(seed)
 	cs := newCaseSet(outDir, "C18_hist", []string{"GC.Codec.Types", "GC.Codec.Codec", "GC.Codec.Cache", "GC.Codec.CacheCases"},
 		"list (list sfield) * list call * list oobs", "ok_history", 4)
-	nHist, nOps := 6, 120
+	nHist, nOps := 6, 360
 	if tier == "thorough" {
-		nHist, nOps = 60, 200
+		nHist, nOps = 60, 500
 	}
 	formNames := []string{"ByVal", "ByPtr", "ByPtrPtr"}
 	// the same histories run in reverse order in a fresh process (package state that no hook resets cannot hide there)
@@ -310,7 +310,7 @@ func c18History(r *rng, nOps int, script *[]*string) (types []reflect.Type, gts 
 		gts, types = append(gts, g), append(types, g.t)
 	}
 	for _, t := range []reflect.Type{reflect.TypeOf(ShapeConflict{}), reflect.TypeOf(ShapeText{}), reflect.TypeOf(ShapeShadow{}),
-		reflect.TypeOf(ShapeEmbVal{}), reflect.TypeOf(ShapeEmbFirst{}), reflect.TypeOf(ShapeEmbLast{}), reflect.TypeOf(ShapeEmbTwo{}), reflect.TypeOf(ShapeEmbDeep{}), reflect.TypeOf(ShapeConflict2{}), reflect.TypeOf(ShapeArrLen{})} {
+		reflect.TypeOf(ShapeEmbVal{}), reflect.TypeOf(ShapeEmbFirst{}), reflect.TypeOf(ShapeEmbLast{}), reflect.TypeOf(ShapeEmbTwo{}), reflect.TypeOf(ShapeEmbDeep{}), reflect.TypeOf(ShapeConflict2{}), reflect.TypeOf(ShapeArrLen{}), reflect.TypeOf(ShapeGroupInline{})} {
 		gts, types = append(gts, nil), append(types, t)
 	}
 	nModelled = len(types)
@@ -331,7 +331,9 @@ func c18History(r *rng, nOps int, script *[]*string) (types []reflect.Type, gts 
 			}
 		} else {
 			op.h = strs[r.intn(len(strs))]
-			if r.intn(3) == 0 && len(op.h) > 0 {
+			if r.intn(8) == 0 { // strings the parser itself rejects (unterminated / empty identifier), of various lengths
+				op.h = []string{"$", "$abc", "$$x", "$,", "$unterminated-identifier", "$a"}[r.intn(6)] + r.str(r.intn(3), "ab")
+			} else if r.intn(3) == 0 && len(op.h) > 0 {
 				b := []byte(op.h)
 				b[r.intn(len(b))] = "$,=@a0"[r.intn(6)]
 				op.h = string(b)
@@ -442,9 +444,9 @@ func stableDump(v reflect.Value) string {
 // per call with a digest of its complete textual outcome.
 func c18Order(seed uint64, tier string, scriptFile string, mode string) {
 	r := newRng(seed)
-	nHist, nOps := 6, 120
+	nHist, nOps := 6, 360
 	if tier == "thorough" {
-		nHist, nOps = 60, 200
+		nHist, nOps = 60, 500
 	}
 	var script []*string
 	data, err := os.ReadFile(scriptFile)
@@ -498,9 +500,9 @@ func c18Order(seed uint64, tier string, scriptFile string, mode string) {
 func c18Reversed(seed uint64, tier string, outDir string, rep *report) map[string][]string {
 	// the script of marshalled strings, from a generation pass of this process
 	r := newRng(seed)
-	nHist, nOps := 6, 120
+	nHist, nOps := 6, 360
 	if tier == "thorough" {
-		nHist, nOps = 60, 200
+		nHist, nOps = 60, 500
 	}
 	var script []*string
 	for hI := 0; hI < nHist; hI++ {
